@@ -81,7 +81,11 @@ def install(h, cfg):
         a = sorted(json.dumps(x, sort_keys=True) for x in ed_norm(res.stored))
         b = sorted(json.dumps(x, sort_keys=True) for x in ed_norm(r2.stored))
         if a != b:
-          h._find(PROP, "stored actions differ by more than their order", first_multiset_diff(a, b), fake,
+          sig = "stored actions differ by more than their order"
+          if set(a) == set(b):
+            sig = ("stored actions differ only in how many times an identical reference clean-up action is emitted "
+                   "(a column is listed twice among a table's back references)")
+          h._find(PROP, sig, first_multiset_diff(a, b), fake,
                   {"perm_seed": seed + len(h.log)})
           state["dead"] = True
           return res
